@@ -146,16 +146,16 @@ func (r *Run) WantCase(name string) bool {
 	return r.ReplayCase == "" || r.ReplayCase == name
 }
 
-func (r *Run) SetRule(rule string)      { r.mu.Lock(); r.rule = rule; r.mu.Unlock() }
-func (r *Run) SetExhaustive(b bool)     { r.mu.Lock(); r.exhaustive = b; r.mu.Unlock() }
-func (r *Run) Assume(s string)          { r.mu.Lock(); r.assumptions = append(r.assumptions, s); r.mu.Unlock() }
-func (r *Run) Extra(k string, v any)    { r.mu.Lock(); r.extra[k] = v; r.mu.Unlock() }
-func (r *Run) Count(k string, n int64)  { r.mu.Lock(); r.counters[k] += n; r.mu.Unlock() }
-func (r *Run) SetMaxSamples(n int)      { r.mu.Lock(); r.maxSamples = n; r.mu.Unlock() }
-func (r *Run) Counter(k string) int64   { r.mu.Lock(); defer r.mu.Unlock(); return r.counters[k] }
-func (r *Run) Violations() int          { r.mu.Lock(); defer r.mu.Unlock(); return r.violations }
-func (r *Run) Evaluations() int         { r.mu.Lock(); defer r.mu.Unlock(); return r.evaluations }
-func (r *Run) DistinctNontrivial() int  { r.mu.Lock(); defer r.mu.Unlock(); return len(r.distinct) }
+func (r *Run) SetRule(rule string)     { r.mu.Lock(); r.rule = rule; r.mu.Unlock() }
+func (r *Run) SetExhaustive(b bool)    { r.mu.Lock(); r.exhaustive = b; r.mu.Unlock() }
+func (r *Run) Assume(s string)         { r.mu.Lock(); r.assumptions = append(r.assumptions, s); r.mu.Unlock() }
+func (r *Run) Extra(k string, v any)   { r.mu.Lock(); r.extra[k] = v; r.mu.Unlock() }
+func (r *Run) Count(k string, n int64) { r.mu.Lock(); r.counters[k] += n; r.mu.Unlock() }
+func (r *Run) SetMaxSamples(n int)     { r.mu.Lock(); r.maxSamples = n; r.mu.Unlock() }
+func (r *Run) Counter(k string) int64  { r.mu.Lock(); defer r.mu.Unlock(); return r.counters[k] }
+func (r *Run) Violations() int         { r.mu.Lock(); defer r.mu.Unlock(); return r.violations }
+func (r *Run) Evaluations() int        { r.mu.Lock(); defer r.mu.Unlock(); return r.evaluations }
+func (r *Run) DistinctNontrivial() int { r.mu.Lock(); defer r.mu.Unlock(); return len(r.distinct) }
 
 // Case records one executed case. sig is the distinctness signature of a
 // non-trivial case; pass "" for a trivial case (counted as evaluation only).
